@@ -78,9 +78,15 @@ def model_stage(tier: str) -> dict:
         live = {"cfg": "HMS_live.cfg", "distinct_states": lv.distinct, "terminates": not lv.violated, "wall_s": round(lv.wall_s, 1)}
         if lv.violated:
             r.violated.append("Termination")
+        # caller-driven stepping (run_step() although the global condition holds): every clause except the sentences about run()
+        mn = run_tlc("MC_HMS", "HMS_manual.cfg", d / "manual", workers=8, timeout=2400, heap="4g")
+        if not mn.ok and not mn.violated:
+            raise MachineryError("manual-stepping run failed:\n" + "\n".join(mn.out.splitlines()[-20:]))
+        manual = {"cfg": "HMS_manual.cfg", "distinct_states": mn.distinct, "violated": mn.violated, "wall_s": round(mn.wall_s, 1)}
+        r.violated.extend(mn.violated)
         wit = _witnesses(d)
         unreachable = [f"model witness not reachable: {n} ({WITNESSES[n]})" for n, v in wit.items() if not v["reachable"]]
-        return {"simulation": sim, "liveness": live, "witnesses": wit, "unreachable_witnesses": unreachable,
+        return {"manual_stepping": manual, "simulation": sim, "liveness": live, "witnesses": wit, "unreachable_witnesses": unreachable,
                 "cfg": cfg, "generated": r.generated, "distinct": r.distinct, "depth": r.depth,
                 "violated": r.violated, "tail": r.out[-2500:] if r.violated else "",
                 "action_coverage": cov, "untaken_actions": untaken, "wall_s": round(r.wall_s, 1),
